@@ -130,8 +130,18 @@ def eval_header_encode(repo, cls_name: str, fields: dict):
     """Abstractly evaluate <cls>.encode with self.<attr> bound to symbolic fields. fields: attr -> (name, width)."""
     f = repo.method(cls_name, "encode", inherited=False)
     attr = {f"self.{a}": bits.SymInt.field(n, w) for a, (n, w) in fields.items()}
-    ev = bits.Evaluator(repo, f, {}, attr)
-    out = ev.run()
+    try:
+        out = bits.Evaluator(repo, f, {}, attr).run()
+    except bits.NeedDecision as exc:
+        # a test of field values that no one-bit flag decides: every header is laid out bit by bit from its fields, so
+        # both outcomes must produce the same layout - otherwise some headers are written differently from the rest
+        outcomes = bits.explore_decisions(lambda d: bits.Evaluator(repo, f, {}, attr, decisions=d))
+        rets = [o for _, (kind, o) in outcomes if kind == "return"]
+        if len(rets) != len(outcomes) or not all(isinstance(o, bits.SymBytes) for o in rets):
+            raise AnalysisError(f"{cls_name}.encode branches on field values (`{exc}`) and not every outcome is a header") from exc
+        if any(repr(o) != repr(rets[0]) for o in rets[1:]):
+            raise bits.LayoutViolation(f"the encoded bits depend on a test of field values (`{exc}`): some headers are not written with the prescribed layout") from exc
+        out = rets[0]
     if not isinstance(out, bits.SymBytes):
         raise AnalysisError(f"{cls_name}.encode did not evaluate to bytes: {out!r}")
     return f, out
